@@ -45,7 +45,21 @@ func c12Docs() map[string]string {
 	pfx := func(decl, og string) string {
 		return "<html prefix=\"" + decl + "\"><head><title>" + ora.DefaultTitle + "</title><meta property=\"" + og + ":type\" content=\"article\"><meta property=\"" + og + ":title\" content=\"T\"><meta property=\"" + og + ":url\" content=\"http://example.com/x\"><meta property=\"" + og + ":image\" content=\"http://example.com/i.jpg\"></head><body><p>" + t3.W(24) + "</p><p>" + t3.W(22) + "</p></body></html>"
 	}
-	return map[string]string{"min": min, "rich1": rich1, "rich2": rich2, "wrapped": wb.String(),
+	// two pages with non-ASCII text (the byte entry points decode, normalise and re-encode them)
+	utf := func(word string) string {
+		var sb strings.Builder
+		sb.WriteString("<html><head><meta charset=\"utf-8\"><title>" + ora.DefaultTitle + "</title></head><body>")
+		for i := 0; i < 6; i++ {
+			sb.WriteString("<p>")
+			for j := 0; j < 25; j++ {
+				fmt.Fprintf(&sb, "%s%d ", word, i*25+j)
+			}
+			sb.WriteString("</p>")
+		}
+		sb.WriteString("</body></html>")
+		return sb.String()
+	}
+	return map[string]string{"utfA": utf("caf\u00e9"), "utfB": utf("\u00fcber\u00adgro\u00df"), "min": min, "rich1": rich1, "rich2": rich2, "wrapped": wb.String(),
 		"prefixA": pfx("og: http://ogp.me/ns# article: http://ogp.me/ns/article#", "og"), "prefixB": pfx("ogp: http://ogp.me/ns#", "ogp")}
 }
 
@@ -80,6 +94,8 @@ func c12Scenarios() []c12Scenario {
 		{name: "S-c", threads: []c12Thread{{"min", "apply-shared", 0, 0, true}, {"min", "apply-shared", 0, 0, true}, {"min", "apply-own", 30, 1, false}}},
 		{name: "S-d", threads: []c12Thread{{"rich2", "apply-shared", 0, 0, true}, {"rich2", "reader", 0, 1, false}}},
 		{name: "S-e-log", threads: []c12Thread{{"min", "apply-shared", 30, 1, false}, {"min", "apply-own", 30, 0, false}}},
+		{name: "S-j-reader-utf8", threads: []c12Thread{{"utfA", "reader", 0, 0, false}, {"utfB", "reader", 0, 0, false}}},
+		{name: "S-i-url-nil", threads: []c12Thread{{"min", "url-nil", 0, 0, false}, {"min", "url-nil", 0, 0, false}}},
 		{name: "S-h-url", threads: []c12Thread{{"min", "url", 0, 0, true}, {"min", "url", 0, 0, true}}},
 		{name: "S-g-prefix", threads: []c12Thread{{"prefixA", "apply-own", 0, 0, true}, {"prefixB", "apply-own", 0, 0, true}}},
 		{name: "S-f-wrapped", threads: []c12Thread{{"wrapped", "apply-own", 0, 0, true}, {"wrapped", "apply-own", 0, 0, true}}},
@@ -92,7 +108,7 @@ func c12Enumerate(tier string, emit func(*eng.Case)) {
 	for _, sc := range c12Scenarios() {
 		// V-level: unbounded over visible operations
 		emit(&eng.Case{Kind: "sched", P: map[string]string{"scenario": sc.name, "level": "V", "bound": "1000", "shard": "0", "nshards": "1", "doc": sc.name + " V-level unbounded"}})
-		if sc.name == "S-h-url" {
+		if sc.name == "S-h-url" || sc.name == "S-i-url-nil" || sc.name == "S-j-reader-utf8" {
 			continue // below the entry point this is S-a-min; the entry point itself is explored at A-level
 		}
 		// F-level
@@ -113,7 +129,7 @@ func c12Enumerate(tier string, emit func(*eng.Case)) {
 	}
 	// A-level: the entry points themselves (what they do with the caller's Options before and after
 	// the extraction) interleaved with two preemptions
-	for _, name := range []string{"S-h-url", "S-a-min", "S-e-log"} {
+	for _, name := range []string{"S-h-url", "S-i-url-nil", "S-j-reader-utf8", "S-a-min", "S-e-log"} {
 		emit(&eng.Case{Kind: "sched", P: map[string]string{"scenario": name, "level": "A", "bound": "1000", "shard": "0", "nshards": "1", "doc": name + " A-level (function entries of distiller.go) unbounded"}})
 	}
 	// X: the documents of the other checks (quick: every 16th document of the cross corpus), two
@@ -186,6 +202,8 @@ func c12Prepare(sc c12Scenario) *c12Run {
 			var err error
 			if th.entry == "reader" {
 				res, err = distiller.ApplyForReader(strings.NewReader(src), opts)
+			} else if th.entry == "url-nil" {
+				res, err = distiller.ApplyForURL(fetch, 10*time.Minute, nil)
 			} else if th.entry == "url" {
 				// through the in-process transport installed by c12Check / RacePassMain
 				res, err = distiller.ApplyForURL(fetch, 10*time.Minute, opts) // the client timeout is wall-clock time: far above any pause the scheduler can cause
@@ -611,8 +629,8 @@ func init() {
 	eng.Register(&eng.Prop{
 		ID:        "C12",
 		DesignRef: "§5 C12",
-		Rule: "closed drivers with forced sharing: S-a two Apply calls on one shared tree with one shared *Options (minimal page; rich page with table, figure, embed, pager), S-b two different rich pages with shared Options, S-c three threads (S-a + a LogEverything/PageNumber call), S-d Apply(tree) || ApplyForReader(bytes), S-e two logging calls, S-f two calls on a page whose paragraphs each sit in their own wrapper and whose root carries a legacy xmlns namespace prefix, S-h two ApplyForURL calls (different addresses, in-process transport) sharing one *Options, S-g two pages that declare the OpenGraph namespace through prefix attributes with different values; X: the S-a shape (two calls, shared tree, shared Options, the document's own page URL and algorithm) for every 16th (thorough: 8th) document of the cross corpus (documents of C02-C04, C06-C10, C13-C20), V-level. " +
-			"Each scenario is explored by a DFS over the cooperative scheduler's choice points: V-level (scheduling points only at visible operations: package variables ever written, writes to shared trees, lock operations) without preemption bound; A-level (scheduling points at the function entries of distiller.go only, i.e. between an entry point's handling of the caller's Options and the extraction proper) without preemption bound on S-h, S-a-min and S-e; F-level (every function entry, loop iteration, package-variable access and node write is a scheduling point) with preemption bound 1 (bound 2 for S-a-min in thorough; in quick the two rich scenarios are explored on every 4th of 48 shards). " +
+		Rule: "closed drivers with forced sharing: S-a two Apply calls on one shared tree with one shared *Options (minimal page; rich page with table, figure, embed, pager), S-b two different rich pages with shared Options, S-c three threads (S-a + a LogEverything/PageNumber call), S-d Apply(tree) || ApplyForReader(bytes), S-e two logging calls, S-f two calls on a page whose paragraphs each sit in their own wrapper and whose root carries a legacy xmlns namespace prefix, S-h two ApplyForURL calls (different addresses, in-process transport) sharing one *Options, S-i the same with nil options, S-j two ApplyForReader calls on pages with non-ASCII text (decoding and normalisation in the byte entry point), S-g two pages that declare the OpenGraph namespace through prefix attributes with different values; X: the S-a shape (two calls, shared tree, shared Options, the document's own page URL and algorithm) for every 16th (thorough: 8th) document of the cross corpus (documents of C02-C04, C06-C10, C13-C20), V-level. " +
+			"Each scenario is explored by a DFS over the cooperative scheduler's choice points: V-level (scheduling points only at visible operations: package variables ever written, writes to shared trees, lock operations) without preemption bound; A-level (scheduling points at the function entries of distiller.go only, i.e. between an entry point's handling of the caller's Options and the extraction proper) without preemption bound on S-h, S-i, S-j, S-a-min and S-e; F-level (every function entry, loop iteration, package-variable access and node write is a scheduling point) with preemption bound 1 (bound 2 for S-a-min in thorough; in quick the two rich scenarios are explored on every 4th of 48 shards). " +
 			"Oracle on every schedule: each thread's canonical result equals its solo result; no pair of conflicting package-variable accesses from different threads without a common lock; no write to a node of a shared input tree; shared Options and trees unchanged; no panic, deadlock or horizon overrun. Plus one free-running pass of the same bodies (X scenarios included) under the Go race detector. " +
 			"Non-trivial = shards whose executions include >= 1 preemption.",
 		Enumerate:  c12Enumerate,
